@@ -127,6 +127,15 @@ func main() {
 		}
 		return
 	}
+	if *dumpfn == "DEFERCELLS" {
+		w := loadWorld(*repo)
+		for _, fn := range w.RepoFuncs("schema", "internal", "flow", "callbacks", "components", "utils", "compose") {
+			for _, d := range deferredErrorCells(fn) {
+				fmt.Printf("%s | cell %s | %v | %s\n", w.fname(origin(fn)), d.cell.Comment, d.okAll, w.pos(d.def.Pos()))
+			}
+		}
+		return
+	}
 	if *dumpfn == "LIST" {
 		w := loadWorld(*repo)
 		for _, f := range w.RepoFuncs() {
